@@ -256,6 +256,8 @@ class Ctx:
         self.known = load_known()
         self.assumptions = []
         self.drift = 0
+        self.alt_prop = None        # C19 replays other families: their findings are matched under their own property
+        self.viol_alt = {}
 
     @property
     def quick(self):
@@ -370,6 +372,8 @@ class Ctx:
                 e = json.loads(line)
                 if i in badidx:
                     self.violations.append((e, badidx[i], name))
+                    if self.alt_prop:
+                        self.viol_alt[id(e)] = self.alt_prop
                 if cover:
                     for c in cover(e):
                         self.cover[c] = self.cover.get(c, 0) + 1
@@ -389,7 +393,8 @@ class Ctx:
         new = []
         lines = []
         for ev, why, src in self.violations:
-            k = match_known(self.prop, ev, why, self.known)
+            alt = self.viol_alt.get(id(ev))
+            k = match_known(self.prop, ev, why, self.known) or (alt and match_known(alt, ev, why, self.known))
             if k:
                 self.known_hits[k["id"]] = self.known_hits.get(k["id"], 0) + 1
             else:
